@@ -39,8 +39,22 @@ def run(ctx):
         cfg = gen.pipeline_cfg(rnd, allow_unique=False); cfg['unique'] = True
         data = gen.stream(gen.records(rnd, 20), rnd)
         cases.append(mkcase('q%d' % i, cfg, data))
+    # rows are compared on their selected VALUES: the names of the selections play no part (two selections may share a name)
+    nmeta = []
+    for i in range(n // 6):
+        m = rnd.choice([2, 4, 8, 16])
+        data = b'\n'.join(rnd.choice(COMP) for _ in range(m))
+        cols = rnd.choice([['.a', '.b'], ['.a', '.b', '.c'], ['.b', '.a'], ['.c', '.a']])
+        same = lib.new_cfg(select=['%s=n' % c for c in cols], unique=True, style='text')
+        dist = lib.new_cfg(select=['%s=n%d' % (c, t) for t, c in enumerate(cols)], unique=True, style='text')
+        cases.append(mkcase('S%d' % i, same, data)); cases.append(mkcase('T%d' % i, dist, data)); nmeta.append((same, dist, data))
     impl, model, mism = common.correspond(cases)
     violations = []; checked = 0
+    for i, (same, dist, data) in enumerate(nmeta):
+        a, b = impl['S%d' % i], impl['T%d' % i]; checked += 1
+        if (a['result'], a['stdout']) != (b['result'], b['stdout']):
+            violations.append(viol(same, data, 'rows are compared on their selected values: giving the selections the same name changes nothing',
+                                   a['stdout'].decode('utf8', 'replace')[:400], b['stdout'].decode('utf8', 'replace')[:400]))
     for i, md in enumerate(meta):
         if md is None: continue
         cfg, data = md
